@@ -9,6 +9,7 @@ mod dur;
 mod epoch;
 mod float;
 mod views;
+mod text;
 
 pub enum Tok {
     Z(i128),
@@ -69,7 +70,7 @@ pub fn pdur(d: Duration) -> String {
 }
 
 fn run(name: &str, a: &Args) -> Option<String> {
-    dur::run(name, a).or_else(|| epoch::run(name, a)).or_else(|| float::run(name, a)).or_else(|| views::run(name, a))
+    dur::run(name, a).or_else(|| epoch::run(name, a)).or_else(|| float::run(name, a)).or_else(|| views::run(name, a)).or_else(|| text::run(name, a))
 }
 
 fn main() {
